@@ -110,27 +110,31 @@ def _saveload(x, arg):
     return y
 
 
-def _idx(x, arg):
+def _idx_expr(x, arg):
     d = len(x.N)
     if x.is_ttm:
         if arg == 'int0':
-            return x[tuple([0] + [slice(None)] * (d - 1) + [0] + [slice(None)] * (d - 1))] if d > 1 else x[0, 0]
-        return x[tuple([slice(0, 1)] * d + [slice(None)] * d)]
+            return tuple([0] + [slice(None)] * (d - 1) + [0] + [slice(None)] * (d - 1)) if d > 1 else (0, 0)
+        return tuple([slice(0, 1)] * d + [slice(None)] * d)
     if arg == 'int0':
-        return x[tuple([0] + [slice(None)] * (d - 1))]
+        return tuple([0] + [slice(None)] * (d - 1))
     if arg == 'intlast':
-        return x[tuple([slice(None)] * (d - 1) + [-1])]
+        return tuple([slice(None)] * (d - 1) + [-1])
     if arg == 'len1':
-        return x[tuple([slice(0, 1)] + [slice(None)] * (d - 1))]
+        return tuple([slice(0, 1)] + [slice(None)] * (d - 1))
     if arg == 'none':
-        return x[tuple([None] + [slice(None)] * d)]
+        return tuple([None] + [slice(None)] * d)
     if arg == 'ell':
-        return x[..., 0]
+        return (Ellipsis, 0)
     if arg == 'sub':
-        return x[tuple(slice(0, max(1, n - 1)) for n in x.N)]
+        return tuple(slice(0, max(1, n - 1)) for n in x.N)
     if arg == 'allint':
-        return x[tuple([0] * d)]
+        return tuple([0] * d)
     raise KeyError(arg)
+
+
+def _idx(x, arg):
+    return x[_idx_expr(x, arg)]
 
 
 def _reshape(x, arg):
@@ -384,8 +388,10 @@ def state_key(pool):
 # ------------------------------------------------------------------------------------------------ the search
 
 class Explorer:
-    def __init__(self, pid, depth, with_slow=False, merge_from=None, monitors=('wf', 'imm')):
+    def __init__(self, pid, depth, with_slow=False, merge_from=None, monitors=('wf', 'imm'), last_events=None):
         self.pid, self.depth, self.with_slow, self.merge_from, self.monitors = pid, depth, with_slow, merge_from, monitors
+        self.last_events = last_events      # if given: only these event names are enabled at the last level (and value-checked)
+        self.value_checks = 0
         self.states = set()
         self.transitions = 0
         self.monitor_evals = 0
@@ -431,6 +437,8 @@ class Explorer:
             if v and 'wf' in self.monitors:
                 self.record('wf.initial.' + v[0], [], v[1])
         evs = enabled_events(pool, None, True)       # the root level always includes the slow (iterative) entry points
+        if self.last_events is not None:
+            evs = [c for c in evs if not c[0].slow and (self.depth > 1 or c[0].name in self.last_events)]
         if first is not None:
             evs = evs[first:first + 1]
         self._expand(pool, snaps, [], evs, 1)
@@ -475,6 +483,12 @@ class Explorer:
                     if 'wf' in self.monitors:
                         self.record('wf.%s.%s.%s' % (ev.name, 'receiver' if k == receiver else 'existing', v[0]), h2, v[1])
                         bad_state = True
+            if 'val' in self.monitors and e is None and (self.last_events is None or ev.name in self.last_events):
+                vv = value_violation(ev, [pool[i] for i in idx], ev.args[ai], res)
+                self.value_checks += 1
+                if vv:
+                    self.record('val.%s.%s' % (ev.name, vv[0]), h2, vv[1])
+                    bad_state = True
             if newobj is not None:
                 v = wf_violation(newobj)
                 self.monitor_evals += 1
@@ -507,6 +521,8 @@ class Explorer:
                         child = enabled_events(pool, idx[0], self.with_slow)
                     else:
                         child = enabled_events(pool, len(pool) - 1, self.with_slow)
+                    if self.last_events is not None and depth + 1 == self.depth:
+                        child = [c for c in child if c[0].name in self.last_events]
                     self._expand(pool, snaps, h2, child, depth + 1)
                     # the subtree may have run in-place events: be safe and rebuild when it did
                     if any(c[0].inplace for c in child):
@@ -522,8 +538,180 @@ class Explorer:
 EVBYNAME = {ev.name: ev for ev in UNARY + BINARY + TERNARY}
 
 
-def root_event_count(pid, with_slow=True):
-    return len(enabled_events(init_pool(pid), None, True))
+# ------------------------------------------------------------------------------------------------ dense counterparts
+# (value monitor: the last event of a history is compared with its dense definition applied to the dense values of its
+#  operands AS THEY ARE IN THAT STATE - views, non-contiguous cores, rounded / sliced / padded objects ...)
+
+def _dn(x):
+    return ref.contract(x.cores)
+
+
+def _mat(d, nd):
+    """(dense M+N array, order) -> index helpers"""
+    return list(range(nd)), list(range(nd, 2 * nd))
+
+
+def _dense_matmul(x, y):
+    X, Y = _dn(x), _dn(y)
+    if x.is_ttm and not y.is_ttm:
+        d = len(x.N)
+        return torch.tensordot(X, Y, dims=(list(range(d, 2 * d)), list(range(d))))
+    if x.is_ttm and y.is_ttm:
+        d = len(x.N)
+        return torch.tensordot(X, Y, dims=(list(range(d, 2 * d)), list(range(d))))
+    d = len(y.N)
+    return torch.tensordot(X, Y, dims=(list(range(d)), list(range(d))))
+
+
+def _dense_kron(x, y):
+    X, Y = _dn(x), _dn(y)
+    r = torch.tensordot(X, Y, dims=0)
+    if x.is_ttm:
+        d1, d2 = len(x.N), len(y.N)
+        r = r.permute(list(range(d1)) + list(range(2 * d1, 2 * d1 + d2)) + list(range(d1, 2 * d1)) + list(range(2 * d1 + d2, 2 * d1 + 2 * d2)))
+    return r
+
+
+def _dense_sum(x, a):
+    X = _dn(x)
+    d = len(x.N)
+    if a == 'all':
+        return X.sum()
+    k = 0 if a == 'first' else d - 1
+    return X.sum(dim=[k, k + d] if x.is_ttm else [k])
+
+
+def _dense_diag(x):
+    X = _dn(x)
+    if x.is_ttm:
+        K = [min(m, n) for m, n in zip(x.M, x.N)]
+        out = torch.zeros(K, dtype=X.dtype)
+        for idx in itertools.product(*[range(k) for k in K]):
+            out[idx] = X[idx + idx]
+        return out
+    out = torch.zeros(list(X.shape) * 2, dtype=X.dtype)
+    for idx in itertools.product(*[range(n) for n in X.shape]):
+        out[idx + idx] = X[idx]
+    return out
+
+
+def _dense_mprod(x, a):
+    k = 0 if a == 'first' else len(x.N) - 1
+    X = _dn(x)
+    Mx = torch.ones(2, x.N[k], dtype=X.dtype) * 0.5
+    return torch.movedim(torch.tensordot(Mx, X, dims=([1], [k])), 0, k)
+
+
+def _dense_pad(x, a):
+    import torch.nn.functional as F
+    return F.pad(_dn(x), (1, 1), value=a)
+
+
+DENSE = {
+    'neg': lambda x, a: -_dn(x), 'pos': lambda x, a: _dn(x), 'clone': lambda x, a: _dn(x), 'detach': lambda x, a: _dn(x),
+    'conj': lambda x, a: _dn(x).conj(), 'cpu': lambda x, a: _dn(x), 'saveload': lambda x, a: _dn(x), 'pow_none': lambda x, a: _dn(x),
+    't': lambda x, a: _dn(x).permute(list(range(len(x.N), 2 * len(x.N))) + list(range(len(x.N)))),
+    'to_ttm': lambda x, a: _dn(x).reshape(list(x.N) + [1] * len(x.N)),
+    'round': lambda x, a: _dn(x), 'getitem': lambda x, a: _dn(x)[_idx_expr(x, a)], 'sum': _dense_sum,
+    'norm': lambda x, a: (_dn(x).abs() ** 2).sum() if a else (_dn(x).abs() ** 2).sum() ** 0.5,
+    'full': lambda x, a: _dn(x), 'numpy': lambda x, a: _dn(x),
+    'mul_scalar': lambda x, a: _dn(x) * a, 'rmul_scalar': lambda x, a: 2.0 * _dn(x), 'add_scalar': lambda x, a: _dn(x) + 1.0,
+    'sub_scalar': lambda x, a: _dn(x) - 1.0, 'rsub_scalar': lambda x, a: 1.0 - _dn(x), 'div_scalar': lambda x, a: _dn(x) / float(a),
+    'reshape': None, 'permute': lambda x, a: _dn(x).permute(list(range(len(x.N)))[::-1] + ([len(x.N) + i for i in list(range(len(x.N)))[::-1]] if x.is_ttm else [])),
+    'to_qtt': None, 'diag': lambda x, a: _dense_diag(x), 'mprod': _dense_mprod, 'ctor_cores': lambda x, a: _dn(x),
+    'pad': lambda x, a: _dense_pad(x, a) if not x.is_ttm else None,
+    'apply_mask': lambda x, a: _dn(x)[tuple([0] * len(x.N))].repeat(2),
+    'to_f32': lambda x, a: _dn(x),
+    'add': lambda x, y, a: _dn(x) + _dn(y), 'sub': lambda x, y, a: _dn(x) - _dn(y), 'mul': lambda x, y, a: _dn(x) * _dn(y),
+    'matmul': lambda x, y, a: _dense_matmul(x, y), 'kron': lambda x, y, a: _dense_kron(x, y), 'kron_fn': lambda x, y, a: _dense_kron(x, y),
+    'dot': lambda x, y, a: (_dn(x) * _dn(y).conj()).sum(), 'cat': lambda x, y, a: torch.cat((_dn(x), _dn(y)), 0),
+    'bilinear': lambda x, y, z, a: (_dn(x).conj() * torch.tensordot(_dn(y), _dn(z), dims=(list(range(len(y.N), 2 * len(y.N))), list(range(len(y.N)))))).sum(),
+}
+SAME_NUMEL = {'reshape', 'to_qtt'}       # the dense counterpart is "same entries in row-major order, shape as returned"
+
+
+def value_violation(ev, ops, arg, res):
+    """compare the result of a (successful) event with its dense definition; returns None or (symptom, detail)"""
+    name = ev.name
+    if name not in DENSE and name not in SAME_NUMEL:
+        return None
+    if any(numel(o) > BIG for o in ops):
+        return None
+    try:
+        if name in SAME_NUMEL:
+            want = _dn(ops[0])
+        else:
+            f = DENSE[name]
+            want = f(*ops, arg) if f is not None else None
+    except Exception as e:
+        return None       # the dense model rejects the operands: incompatibility is C18's subject
+    if want is None:
+        return None
+    if isinstance(res, TT):
+        if numel(res) > BIG:
+            return None
+        try:
+            got = ref.contract(res.cores)
+        except ValueError as e:
+            return ('malformed', str(e))
+    elif torch.is_tensor(res):
+        got = ref.up(res)
+    elif isinstance(res, np.ndarray):
+        got = ref.up(torch.tensor(res))
+    elif isinstance(res, (int, float, complex)):
+        got = torch.tensor(res)
+    else:
+        return None
+    want = ref.up(want) if torch.is_tensor(want) else torch.tensor(want)
+    if name in SAME_NUMEL:
+        if got.numel() != want.numel():
+            return ('numel', 'result has %d entries, operand %d' % (got.numel(), want.numel()))
+        want = want.reshape(got.shape)
+    if got.is_complex() != want.is_complex():
+        got, want = got.to(torch.complex128), want.to(torch.complex128)
+    if tuple(got.shape) != tuple(want.shape):
+        if got.numel() == 1 and want.numel() == 1:
+            got, want = got.reshape([]), want.reshape([])
+        else:
+            return ('shape', 'result shape %s, dense model %s' % (list(got.shape), list(want.shape)))
+    # tolerance: roundoff of the lowest-precision operand times a bound on the magnitude of every intermediate (contraction
+    # of |cores|), so that cancellation (x - x) and float32 objects are judged on their own scale
+    u = max(ref.unit_roundoff(c.dtype) for o in ops for c in o.cores)
+    bounds = [max(ref.absbound(o.cores), 1e-300) for o in ops]
+    nmax = max([numel(o) for o in ops] + [1])
+    if name in ('mul', 'kron', 'kron_fn'):
+        S = bounds[0] * bounds[1]
+    elif name in ('matmul', 'dot', 'bilinear'):
+        S = nmax
+        for bb in bounds:
+            S = S * bb
+    elif name in ('add', 'sub', 'cat'):
+        S = bounds[0] + bounds[1]
+    elif name == 'norm':
+        S = bounds[0] ** 2 * nmax if arg else bounds[0] * nmax ** 0.5
+    elif name in ('sum', 'mprod'):
+        S = bounds[0] * nmax
+    else:
+        S = bounds[0] + 4.0
+    tol = 1e3 * u * S
+    if name == 'round':
+        tol = (tol + 2.0 * arg[0] * float(torch.linalg.norm(want))) if arg[1] > 10 else None
+    if name == 'to_f32':
+        tol = 1e3 * 2.0 ** -24 * S
+    if name in ('permute', 'reshape', 'to_qtt'):
+        tol = tol + 1e-9 * S * nmax ** 0.5
+    if tol is None:
+        return None
+    if want.numel() and not (float((got - want).abs().max()) <= tol):
+        return ('value', 'max diff %.3e (tol %.3e)' % (float((got - want).abs().max()), tol))
+    return None
+
+
+def root_event_count(pid, with_slow=True, last_events=None, depth=2):
+    evs = enabled_events(init_pool(pid), None, True)
+    if last_events is not None:
+        evs = [c for c in evs if not c[0].slow and (depth > 1 or c[0].name in last_events)]
+    return len(evs)
 
 
 def replay_history(pid, hist, monitors=('wf', 'imm')):
